@@ -64,6 +64,9 @@ pub struct KnownFinding {
     pub class: String,
     pub site: String,
     pub what: String,
+    /// replay file (relative to /verif) that reproduces the finding on the unchanged tree
+    #[serde(default)]
+    pub replay: Option<String>,
 }
 
 pub fn load_known() -> KnownFindings {
@@ -623,11 +626,48 @@ pub fn cmd_check(a: &[String]) -> i32 {
     let agg = std::mem::take(&mut g.agg);
     drop(g);
     let explore_s = t0.elapsed().as_secs_f64();
+    let mut agg_extra: Vec<Violation> = vec![];
 
-    // ---- violations: dedupe by key, minimise, write replay files, match known findings ----
+    // ---- known findings: re-execute their recorded scenarios, so that every listed finding
+    // that still reproduces is printed on every run, whatever the seed ----
     let known = load_known();
+    let mut printed_known: BTreeSet<String> = BTreeSet::new();
+    for f in known.findings.iter().filter(|f| f.property == prop) {
+        let Some(rp) = &f.replay else { continue };
+        let path = format!("{}/{}", verif_root(), rp);
+        let Ok(txt) = std::fs::read_to_string(&path) else {
+            eprintln!("HARNESS ERROR: known finding replay {path} is missing");
+            return 2;
+        };
+        let Ok(rf) = serde_json::from_str::<ReplayFile>(&txt) else {
+            eprintln!("HARNESS ERROR: known finding replay {path} is malformed");
+            return 2;
+        };
+        match exec_in_child(&rf.scenario, &rf.profile) {
+            Ok(rep) => {
+                if rep.violations.iter().any(|v| v.class == f.class && v.site == f.site) {
+                    let key = format!("{}|{}|{}", f.property, f.class, f.site);
+                    if printed_known.insert(key) {
+                        println!("KNOWN-FINDING: property={} {} @ {} — {} (reproduced from {})", f.property, f.class, f.site, f.what, rp);
+                    }
+                } else {
+                    println!("note: known finding {} @ {} no longer reproduces from {} on this tree", f.class, f.site, rp);
+                }
+                for v in rep.violations {
+                    if !(v.class == f.class && v.site == f.site) {
+                        agg_extra.push(v);
+                    }
+                }
+            }
+            Err(e) => {
+                eprintln!("HARNESS ERROR: cannot replay known finding: {e}");
+                return 2;
+            }
+        }
+    }
+    // ---- violations: dedupe by key, minimise, write replay files, match known findings ----
     let mut by_key: BTreeMap<String, Violation> = BTreeMap::new();
-    for v in &agg.violations {
+    for v in agg.violations.iter().chain(agg_extra.iter()) {
         // a violation seen under both profiles is reported once, under "checked"
         let e = by_key.entry(v.key()).or_insert_with(|| v.clone());
         if v.profile != "release" {
@@ -635,7 +675,6 @@ pub fn cmd_check(a: &[String]) -> i32 {
         }
     }
     let mut new_violations = 0;
-    let mut printed_known: BTreeSet<String> = BTreeSet::new();
     let replay_dir = format!("{}/replays/{}", verif_root(), prop);
     let mut replay_paths = vec![];
     for (_k, v) in by_key.iter() {
@@ -644,6 +683,25 @@ pub fn cmd_check(a: &[String]) -> i32 {
             .iter()
             .find(|f| f.property == v.property && f.class == v.class && f.site == v.site);
         if let Some(f) = is_known {
+            if std::env::var("VPSIM_SAVE_KNOWN").is_ok() {
+                // curation aid: keep a minimised replay of a violation that matches a known finding
+                let (m, _) = shrink::minimise(v, 400, Duration::from_secs(60));
+                let _ = std::fs::create_dir_all(&replay_dir);
+                let fname = format!("{}/known-{}-{}.json", replay_dir, m.class, sanitize(&m.site));
+                let rf = ReplayFile {
+                    property: m.property.clone(),
+                    class: m.class.clone(),
+                    site: m.site.clone(),
+                    detail: m.detail.clone(),
+                    seed,
+                    tier: tier.clone(),
+                    minimised: true,
+                    profile: v.profile.clone(),
+                    scenario: m.scenario.clone(),
+                };
+                let _ = std::fs::write(&fname, serde_json::to_string_pretty(&rf).unwrap());
+                println!("  (saved {fname}: {})", m.detail);
+            }
             if printed_known.insert(v.key()) {
                 println!(
                     "KNOWN-FINDING: property={} {} @ {} — {}",
